@@ -33,8 +33,6 @@ from harness.core import MachineryError
 
 INVS = ['ParseFormat', 'FormatParse', 'LookupFrame', 'NameRoundTrip', 'MeadowsAssoc', 'MneShape', 'DmShape',
         'SpmLaws']
-ACTIONS = ['BidsFormat', 'BidsParse', 'BidsLookup', 'BidsReject', 'MeadowsName', 'MeadowsLoad', 'MneMap',
-           'DmBuild', 'SpmFilter']
 WORKERS = 12
 
 
@@ -228,7 +226,7 @@ def run(ctx):
                        'single-condition design, tolerance 1e-9',
                        'SPM filter bases are orthonormal (scaled integer Householder columns)']
     if thorough:
-        runs = [('bids', ['bids'], dict(emitmod=20), 1, 0),
+        runs = [('bids', ['bids'], dict(emitmod=20), 2, 0),
                 ('rest', ['meadows', 'mne', 'dm', 'spm'],
                  dict(stims='{3, 4}', maxrdm=3, vols='{10, 25, 40}', spmruns=3, spmpats='{1, 2, 3}', spmemit=6), 0, 5)]
     else:
